@@ -12,7 +12,7 @@ local pair; eq. 3 offset = min(beta*(target - CBR'), delta_up_max) on the positi
 otherwise, on the freshly smoothed CBR, every path deciding that sign; eq. 4: the FIRST value stored into delta is
 (1 - alpha)*delta + offset; every normal exit returns the delta stored in this evaluation); the final clamp path by
 path (delta-clamp: the LAST value stored into delta is bounded above by delta_max and below by delta_min, through
-min / max nesting or a branch condition); the gate keeper (gate: limits [25 ms, 1 s]; t_go = reference + clamp(interval)
+min / max nesting or a branch condition; a new instance starts at its own parameters' delta_min); the gate keeper (gate: limits [25 ms, 1 s]; t_go = reference + clamp(interval)
 with the unclamped interval equal to B.1 at admission / B.2 at a delta update; rescale only while closed with both
 times set; new delta stored on every normal exit, non-positive delta rejected before any store; admit only under
 is_open(t) and t_on > 0, storing t_pg and t_go; a rejected packet changes nothing; is_open <=> no opening scheduled or
@@ -782,6 +782,23 @@ def adaptive(ctx):
     ctx.ob("C19.delta-clamp", con, "lower", bool(full) and not lo_bad,
            "on every path the delta finally stored is bounded below by parameters.delta_min" if full and not lo_bad else
            f"delta can leave [delta_min, delta_max] downwards: finally stored `{lo_bad[:1]}`", fi.loc)
+    # before the first update delta already lies in the INSTANCE's range: it starts at self.parameters.delta_min (set in
+    # __post_init__ / __init__), not at a class-level default that ignores the parameters the object was built with
+    acls = fi.cls
+    init_stores = []
+    for m_ in acls.methods.values():
+        if m_.name in ("__post_init__", "__init__"):
+            mfl = ctx.flows.get(m_)
+            for n_ in ast.walk(m_.node):
+                if isinstance(n_, ast.Assign) and any(dotted(t) == "self.delta" for t in n_.targets) and id(n_) in mfl.before:
+                    init_stores.append(mfl.expand(n_.value, mfl.before[id(n_)]))
+    ok_init = bool(init_stores) and all(sem.same(v_, LO) for v_ in init_stores)
+    ctx.ob("C19.limeric", acls.qual[10:], "delta-starts-at-the-instance-minimum", ok_init,
+           "a new DccAdaptive starts with delta = self.parameters.delta_min" if ok_init else
+           "a new DccAdaptive does not start with delta = self.parameters.delta_min (" +
+           (f"initial stores: {[sem.cx(v_)[:40] for v_ in init_stores]}" if init_stores else "no store in __post_init__ / __init__: the field default is a "
+            "class-level constant") + "): with custom parameters delta lies outside [delta_min, delta_max] until - and the first update deviates from "
+           "clause 5.4 because it smooths from the wrong start", f"{acls.module.rel}:{acls.node.lineno}")
     ctx.floor("C19.limeric", 8)
 
 
